@@ -222,7 +222,13 @@ def build_source(src, tmp, watch):
         from coba.pipes import ListSource, IterableSource
         rows = [dv(r) for r in src["rows"]]
         watch["sup.rows"] = rows
-        source = ListSource(rows) if src["via"] == "list" else IterableSource(rows)
+        if src["via"] == "identity":
+            from coba.pipes import IdentitySource
+            sp = {"source": "my-rows", "origin": [1, 2]}         # a params dict the caller's source OWNS (IdentitySource keeps it)
+            watch["sup.source.params"] = sp
+            source = IdentitySource(rows, params=sp)
+        else:
+            source = ListSource(rows) if src["via"] == "list" else IterableSource(rows)
         kw = {}
         if src.get("label_col") is not None:
             kw["label_col"] = src["label_col"]
@@ -230,7 +236,12 @@ def build_source(src, tmp, watch):
             kw["label_type"] = src["label_type"]
         if src.get("take") is not None:
             kw["take"] = src["take"]
-        return Environments.from_supervised(source, **kw)
+        envs = Environments.from_supervised(source, **kw)
+        if src.get("twin"):         # a second environment over the SAME source object with another label type
+            kw2 = dict(kw)
+            kw2["label_type"] = src["twin"]
+            envs = envs + Environments.from_supervised(source, **kw2)
+        return envs
     if k == "sup_file":
         from coba.environments import CsvSource, ArffSource, LibSvmSource, ManikSource
         from coba.pipes import ListSource
@@ -318,13 +329,20 @@ def apply_chain(envs, chain, tmp, watch, multi=False):
     return envs
 
 
+def is_multi(case):
+    """the case builds a collection: further different environments ("sibs") or a twin over the same source object"""
+    return bool(case.get("sibs")) or bool(case["src"].get("twin"))
+
+
 def member_src(case):
     m = member_of(case)
+    if case["src"].get("twin"):
+        return case["src"] if m <= 1 else case["sibs"][m - 2]
     return case["src"] if m == 0 else case["sibs"][m - 1]
 
 
 def member_of(case):
-    return case.get("member", 0) if case.get("sibs") else 0
+    return case.get("member", 0) if is_multi(case) else 0
 
 
 def build(case, tmp):
@@ -339,7 +357,7 @@ def build(case, tmp):
             if key == "_calls":
                 continue
             watch["sib%d.%s" % (k, key) if not key.startswith("file:") else key] = val
-    envs = apply_chain(envs, case.get("chain", []), tmp, watch, multi=bool(case.get("sibs")))
+    envs = apply_chain(envs, case.get("chain", []), tmp, watch, multi=is_multi(case))
     return envs, watch
 
 
@@ -633,8 +651,19 @@ def g_sup(rng, n):
             labs = g_labels(rng, n, "c")
         if mode == "pairs":
             ck = rng.choice(["dense", "sparse", "value"])
+            if rng.chance(0.45):
+                via = "identity"              # a source object that OWNS its params dict
+                take = None if rng.chance(0.8) else take
+            twin = None
+            if take is None and rng.chance(0.5):
+                # two environments over ONE source object: numeric labels so that both label types can be read
+                labs = [rng.randint(1, 3) for _ in range(n)]
+                lt = rng.choice(["c", "r", None])
+                twin = "r" if lt == "c" else "c"
             rows = [{"t": [g_ctx(rng, ck, width), labs[i]]} for i in range(n)]
             src = {"kind": "sup_rows", "via": via, "rows": rows, "label_col": None, "label_type": lt, "take": take}
+            if twin:
+                src["twin"] = twin
         elif mode == "dense_col":
             ck = "dense"
             col = rng.randint(0, width)
@@ -1322,6 +1351,8 @@ def monitor(case, tmp):
         ks = sorted(k for k in before if before[k] != after.get(k))
         raw.append(("source-modified", ",".join(k.rstrip("0123456789") for k in ks), "caller-passed data changed during the history: %s" % ks))
     raw += held_data_check(case, tmp, tags)
+    if case.get("xproc"):
+        raw += xproc_check(case, tmp, ref, tags)
     info = {"ref_len": len(ref), "nfull": nfull, "outs": outs, "ref": ref, "refp": refp, "srcpost": srcpost, "snap_after": after}
     return raw, tags, info
 
@@ -1353,6 +1384,51 @@ def default_probe():
                 raise
             out[k] = "raised " + errname(e)
     return out
+
+
+XPROC_CODE = (
+    "import sys, json, pickle, warnings; warnings.filterwarnings('ignore'); sys.path[:0] = [sys.argv[2], sys.argv[3]];"
+    "from props import c04; c04.quiet(); env = pickle.load(open(sys.argv[1], 'rb'));"
+    "print('XPROC' + c04.cjson([c04.cint(i) for i in env.read()]))")
+
+
+def xproc_check(case, tmp, ref, tags):
+    """"… after pickling": the pickled (unread) environment is read in fresh interpreters whose string hashing is seeded
+    differently (PYTHONHASHSEED 1,2,3), as worker processes of an experiment would; each must read what this process reads"""
+    import subprocess
+    from core import lean
+    raw = []
+    try:
+        envs, _ = build(case, tmp)
+        blob = pickle.dumps(envs[member_of(case)])
+    except BaseException as e:
+        if not trappable(e):
+            raise
+        tags.append("xproc-unsupported:" + errname(e))
+        return raw
+    path = os.path.join(tmp, "xproc.pkl")
+    with open(path, "wb") as f:
+        f.write(blob)
+    want = cjson(ref)
+    for hs in ("1", "2", "3"):
+        env = dict(os.environ, PYTHONHASHSEED=hs, PYTHONWARNINGS="ignore")
+        try:
+            p = subprocess.run([sys.executable, "-W", "ignore", "-c", XPROC_CODE, path, os.environ.get("COBA_REPO", "/repo"), os.path.join(lean.VERIF, "harness")],
+                               capture_output=True, text=True, timeout=50, env=env)
+        except subprocess.TimeoutExpired:
+            tags.append("xproc-timeout")
+            continue
+        line = [l for l in p.stdout.splitlines() if l.startswith("XPROC")]
+        if p.returncode != 0 or not line:
+            tags.append("xproc-child-raised")
+            continue
+        if line[0][5:] != want:
+            got = json.loads(line[0][5:])
+            raw.append(("other-process-differs", diffkind(got, ref), "the pickled environment read in another interpreter (PYTHONHASHSEED=%s) yields %d interactions that "
+                        "differ from the %d read in this process (%s)" % (hs, len(got), len(ref), diffkind(got, ref))))
+            break
+    tags.append("xproc-check")
+    return raw
 
 
 def held_data_check(case, tmp, tags):
@@ -1705,8 +1781,8 @@ def describe(case, tmp, nd, srcpost=None):
     attrs, fin_table, fin_elem = {}, [], {}
     objs, finals, nreal = [], [], 0
     asis_ok = True
-    members = range(len(envs)) if case.get("sibs") else [mem]
-    srcs = [case["src"]] + list(case.get("sibs") or [])
+    members = range(len(envs)) if is_multi(case) else [mem]
+    srcs = [case["src"]] + ([case["src"]] if case["src"].get("twin") else []) + list(case.get("sibs") or [])
     for k in members:
         o, ids, ok, nr = describe_member(case, envs[k], srcs[k] if k < len(srcs) else case["src"], I, attrs, fin_table, fin_elem,
                                          srcpost if k == mem else None)
@@ -1815,6 +1891,8 @@ class C04(Property):
             "non-trivial = the fresh read is non-empty, the history has >= 2 observations (full reads / params after a read) and at least one "
             "state-changing step (partial read or derive step) before the last observation; distinct by canonical JSON of the case; 25% of the cases are "
             "collections of 2-3 different environments (shortcuts applied to the collection, sibling reads interleaved, every member is an object of the model's pool); "
+            "supervised row sources may be an IdentitySource owning its params dict, optionally with a twin environment of another label type over the SAME source object; "
+            "a small share (25% of multi-label string cases, 1% otherwise) is additionally unpickled and read in child interpreters with PYTHONHASHSEED 1,2,3; "
             "3% are direct GroundedFeedback memo cases (1-110 instances x 2-4 arguments, 2-3 reads) compared word by word with the memo model")
     trusted_base = [
         "filters that select / order interactions (Take, Slice, Shuffle, Riffle, Reservoir, Sort, Where) are REAL functions in the driver (Model/C09, seeds through "
@@ -1864,7 +1942,17 @@ class C04(Property):
             sh2["n"] = src["n"]
         # a collection of 2-3 different environments; the shortcuts are applied to the collection, the history runs on one member
         nmembers, member = 1, 0
-        if rng.chance(0.25):
+        if src.get("twin"):
+            for st in chain:
+                if "pick" in st:
+                    st.pop("pick")
+                    if st["m"] == "shuffle":
+                        st.pop("k", None)
+                        st["a"] = [rng.randint(0, 20)]
+            chain[:] = [st for st in chain if not (st["m"] == "filter" and st["f"]["cls"] in ("Cache", "EmptyCheck", "Finalize", "BatchSafe"))]
+            nmembers, member = 2, rng.randint(0, 1)
+            case["member"] = member
+        elif rng.chance(0.25):
             sibs = [x for x in (sibling_of(rng, src) for _ in range(rng.choice([1, 1, 2]))) if x is not None]
             if sibs:
                 for st in chain:          # steps that multiply the environments are replaced by their single form
@@ -1881,6 +1969,11 @@ class C04(Property):
                 member = rng.randint(0, nmembers - 1)
                 case["member"] = member
         case["hist"] = g_hist(rng, sh2.get("n", 5), nmembers, member)
+        # "after pickling": a small share is also read in other interpreters (other string-hash seeds), mostly where set/dict order could show
+        ms = member_src(case)
+        hashy = ms["kind"].startswith("sup") and ms.get("label_type") == "m"
+        if rng.chance(0.25 if hashy else 0.01):
+            case["xproc"] = True
         return case
 
     def search(self, rng, tier):
@@ -1993,6 +2086,23 @@ class C04(Property):
             for holder in ({"m": "cache"}, {"m": "materialize"}):
                 for mut in mutators:
                     cs.append({"src": src, "chain": pre + [holder, mut], "hist": [full, full, par]})
+        # a source that owns its params dict, used directly; two environments over ONE source object, read in both orders
+        pairs = [{"t": [[1.0, 2.0], 1]}, {"t": [[3.0, 4.0], 2]}, {"t": [[5.0, 6.0], 3]}, {"t": [[7.0, 8.0], 1]}]
+        ident = {"kind": "sup_rows", "via": "identity", "rows": pairs, "label_col": None, "label_type": "c", "take": None}
+        cs.append({"src": ident, "chain": [], "hist": [par, part(1), full, par, full]})
+        for member in (0, 1):
+            other = 1 - member
+            cs.append({"src": dict(ident, twin="r"), "member": member, "chain": [],
+                       "hist": [full, par, {"op": "sib", "on": 0, "i": other}, par, full, {"op": "sib", "on": 0, "i": other}, par]})
+            cs.append({"src": dict(ident, via="list", twin="r"), "member": member, "chain": [{"m": "cache"}],
+                       "hist": [{"op": "sib", "on": 0, "i": other}, full, par, part(1), {"op": "sib", "on": 0, "i": other}, full, par]})
+        # string-valued multi-labels / labels / sparse keys, also read in interpreters with other string-hash seeds
+        ml = {"kind": "sup_xy", "X": [[1, 2], [3, 4], [5, 6], [7, 8], [9, 1]], "Y": [["pear", "fig"], ["kiwi"], ["fig", "plum", "kiwi"], ["lime"], ["pear"]], "label_type": "m"}
+        cs.append({"src": ml, "chain": [], "hist": [full, {"op": "pickle", "on": 0}, {"op": "full", "on": 1}, full], "xproc": True})
+        cs.append({"src": dict(ml, Y=["pear", "kiwi", "fig", "lime", "pear"], label_type="c"), "chain": [{"m": "sparse", "a": [True, True]}],
+                   "hist": [full, full], "xproc": True})
+        cs.append({"src": {"kind": "sup_file", "fmt": "libsvm", "via": "lines", "lines": ["0,2 1:3 4:1", "1 2:1 4:9", "0,1,2 1:2 5:7", "2 3:1"], "label_col": None, "label_type": "m", "take": None},
+                   "chain": [], "hist": [full, full], "xproc": True})
         # a collection of different environments: every shortcut must give each member its own pipes (cache/chunk/materialize/...)
         lin2 = dict(lin, n=6, seed=5)
         for chain in ([{"m": "cache"}], [{"m": "chunk", "a": [True]}], [{"m": "materialize"}], [{"m": "shuffle", "a": [3]}, {"m": "cache"}],
@@ -2109,8 +2219,10 @@ class C04(Property):
             f = F("B", "after this case a FRESH environment built with the constructor's defaults (%s) yields other interactions / params than before it: "
                        "reading modified an object shared between environments (e.g. a mutable default argument)" % ", ".join(ks), "shared-default-modified:" + ",".join(ks))
             fails.append(f)
-        if case.get("sibs"):
-            tags.append("collection:%d" % (1 + len(case["sibs"])))
+        if is_multi(case):
+            tags.append("collection:%d" % (1 + len(case.get("sibs") or []) + (1 if case["src"].get("twin") else 0)))
+        if case["src"].get("twin"):
+            tags.append("twin-over-one-source")
         if raw is None:
             return {"fails": [], "nontrivial": False, "tags": tags, "impl": info}
         if raw:
@@ -2283,7 +2395,8 @@ class C04(Property):
                 "ref, refp = c04.reference(case, tmp)\nouts, before, after = c04.run_history(case, tmp)\n"
                 "for h, o in zip(case['hist'], outs):\n"
                 "    print(h, 'same as a fresh read' if o.get('full') == ref else ('DIFFERENT from a fresh read' if 'full' in o else {k: v for k, v in o.items() if k not in ('partial','tb')}))\n"
-                "print('caller data unchanged:', before == after)\n" % json.dumps(case))
+                "print('caller data unchanged:', before == after)\n"
+                "if case.get('xproc'): print('other interpreters (PYTHONHASHSEED 1,2,3):', c04.xproc_check(case, tmp, ref, []) or 'same reads')\n" % json.dumps(case))
 
 
 PROPERTY = C04()
